@@ -12,7 +12,10 @@ MANIFEST = {
             "order monitors. Mailbox level: theorems C02_conservation (pushed = popped ++ queued as lists, for both queues) and C02_no_stranded (when every sender, "
             "resumer, suspender and runner has finished, the system queue is empty and so is the user queue unless suspended: no lost "
             "wake-up) hold in every reachable state of the mailbox machine for any number of threads; tied to both mailbox files by "
-            "per-step replay of instrumented schedules (same tie as C01), with monitors for stranded, lost, duplicated and reordered messages.",
+            "per-step replay of instrumented schedules (same tie as C01), with monitors for stranded, lost, duplicated and reordered messages. "
+            "The mailbox machine treats each of its two queues as an atomic FIFO; both shipped mailboxes use queues.LFQueue, whose FIFO / "
+            "exactly-once contract is C15's theorem about the Michael-Scott machine — its tie to the current toolkit/queues/lock_free.go "
+            "(per-step schedule replay, monitors lfq:*) is re-run as part of this check.",
     "note": "That a script never reuses a serial for the same receiver (freshness of the harness's serial counter) is checked per run, not proved. Liveness is the safety statement "
             "'quiescent => empty' plus assumed scheduler fairness. Same trusted base as C01.",
     "technique": "Coq proof (counter + poised-thread invariants, no-lost-wake-up) + per-step schedule replay of the instrumented source in Coq",
@@ -26,11 +29,20 @@ def check(ctx):
     bad = vlib.forbidden_scan(["Lib", "C01", "C02", "Kernel"])
     if bad:
         ctx.proof_errors.append("forbidden constructs: %s" % bad[:5])
-    if vlib.coq_make(ctx, ["Lib", "C01", "Kernel", "C02"]):
+    if vlib.coq_make(ctx, ["Lib", "C01", "Kernel", "C02", "C15"]):
         vlib.coq_properties(ctx, "C02/Properties.v")
     # mailbox level: per-step replay of instrumented schedules (tie T2)
     b = vlib.t2_build(ctx, "mbox", "mailbox", c01.MBOX_SOURCES, "mailbox")
     vlib.run_harness(ctx, b, "mbox", kinds=["mailbox:stranded", "mailbox:lost", "mailbox:duplicate", "mailbox:order"])
+    # the queue underneath: both shipped mailboxes keep their messages in queues.LFQueue (toolkit/queues/lock_free.go). The
+    # mailbox machine treats a queue as an atomic FIFO; that contract is C15's theorem about the Michael-Scott machine
+    # (MV.C15.LfqModel), whose tie to the current lock_free.go (T2, per-step schedule replay) is re-run here: a change of the
+    # queue that loses, duplicates or reorders a message breaks C02 as much as a change of the mailbox
+    import c15
+    for (sub, pkg, sources, tdir, kind) in c15.T2:
+        if sub == "lfq":
+            q = vlib.t2_build(ctx, sub, pkg, sources, tdir)
+            vlib.run_harness(ctx, q, sub, kinds=[kind])
     # actor level: lockstep replay of the real actor system against the kernel model (tie T1)
     k = vlib.go_build(ctx, "klock")
     vlib.run_harness(ctx, k, "klock", kinds=["C02:", "kernel:"])
@@ -41,4 +53,8 @@ def check(ctx):
 
 
 def replay(ctx, path):
+    import json
+    if json.load(open(path)).get("sub") == "lfq":
+        import c15
+        return c15.replay(ctx, path)
     return c01.replay(ctx, path)
